@@ -169,7 +169,9 @@ func c09Exec(c *Ctx, e *c09Env, id int, cs *c09Case) *c09ProcResult {
 	var stdin bytes.Buffer
 	if cs.Kind == "script" {
 		for i, l := range unhexAll(cs.Lines) {
-			stdin.WriteString(l + "\n")
+			// whatever produced the line: no control characters reach the binary's readline (NUL, ^C,
+			// ^D, ESC are keys there, NUL/^D end the session like end of input), and no quitting line
+			stdin.WriteString(c09CleanLine(l, false) + "\n")
 			if i%5 == 4 {
 				stdin.WriteString(fmt.Sprintf("zzsentinel%d\n", res.nsent))
 				res.nsent++
@@ -245,6 +247,8 @@ func c09Classify(r *c09ProcResult) (cls, sig, what string) {
 		first := se[c09PanicRx.FindStringIndex(se)[0]:]
 		site := c09PanicSite(first)
 		return "crash", "C09/panic/" + site, fmt.Sprintf("pprof crashed (%s)", c09Trunc(c09FirstLine(first), 200))
+	case r.exit == -100: // could not be started at all (harness side, e.g. a NUL byte in an argument)
+		return "not-run", "", ""
 	case r.exit < 0 || r.exit > 2:
 		return "abnormal", "C09/abnormal-exit/" + cs.Kind, fmt.Sprintf("pprof exit status %d: %s | %s", r.exit, cs.Text, c09Trunc(se, 300))
 	}
@@ -312,6 +316,17 @@ func c09ShrinkList(l []string, still func([]string) bool) []string {
 		}
 	}
 	return l
+}
+
+// c09NoNUL drops (hex-encoded) arguments containing a NUL byte: they cannot be passed to a process.
+func c09NoNUL(argsHex []string) []string {
+	var out []string
+	for _, a := range argsHex {
+		if !strings.Contains(unhex(a), "\x00") {
+			out = append(out, a)
+		}
+	}
+	return out
 }
 
 func c09FirstLine(s string) string {
@@ -1027,7 +1042,7 @@ func c09Web(c *Ctx, cs *c09Case) {
 
 func runC09(c *Ctx) {
 	c.Res.Rule = "correspondence (in-process, exported plug-in API): -tagfocus values vs model outcome class; interactive sessions with a scripted UI vs the model's per-line events, output file, active filters and final option values; candidate-binary counts of locateBinaries; command/option tables. " +
-		"Campaign (real pprof binary, one process per case; web handlers through the HTTPServer hook): valid profiles with odd strings/ids/addresses/0-1-2-character build ids/labels/units x option assignments x interactive scripts (grammar + noise) x URL query strings; failing input = panic trace, recovered panic, hang, abnormal exit, or a session/server that stops answering. " +
+		"Campaign (real pprof binary, one process per case; web handlers through the HTTPServer hook): valid profiles with odd strings/ids/addresses/line numbers/0-1-2-character build ids/labels/units and per-column value patterns (one column zero, all zero, only one column non-zero, cancelling +v/-v, MinInt64/MaxInt64, negative, ones) x option assignments; every fourth CLI/script case and every third web UI also gets -base/-diff_base profiles (same, same stacks with another value pattern, subset, other profile with the same types, reordered/renamed types, unrelated) and the boolean/choice/sample_index option grid (mean, normalize, relative_percentages, call_tree, drop_negative, noinlines, showcolumns, trim, granularity, sort, each sample type) x option assignments x interactive scripts (grammar + noise) x URL query strings; failing input = panic trace, recovered panic, hang, abnormal exit, or a session/server that stops answering. " +
 		"Non-trivial: tagfilter values containing a digit; sessions with at least one assignment or report line; locate cases with a build id; CLI cases that got past flag parsing and profile loading; scripts whose session started; web requests answered 200/400."
 	e := c09Setup()
 	if f := flag.Lookup("replay"); c.Replay == "" || (f != nil && f.Value.String() != "") {
@@ -1093,7 +1108,11 @@ func runC09(c *Ctx) {
 					cls, _, _ := c09Classify(res)
 					h := fnv.New64a()
 					h.Write([]byte(j.cs.Kind + j.cs.Profile + strings.Join(j.cs.Args, " ") + strings.Join(j.cs.Lines, " ")))
-					v := verdict{kind: j.cs.Kind, cls: cls, key: fmt.Sprintf("%s %x", j.cs.Kind, h.Sum64())}
+					kind := j.cs.Kind
+					if len(j.cs.Bases) > 0 {
+						kind += map[bool]string{true: "+diff_base", false: "+base"}[j.cs.Diff]
+					}
+					v := verdict{kind: kind, cls: cls, key: fmt.Sprintf("%s %x", j.cs.Kind, h.Sum64())}
 					if c09Failing(cls) {
 						v.res = res
 					}
@@ -1155,7 +1174,7 @@ func runC09(c *Ctx) {
 					var lines []string
 					for j, n := 0, 5+fr.Intn(20); j < n; j++ {
 						if withBase && fr.Chance(55) {
-							lines = append(lines, c09GridLine(fr, types))
+							lines = append(lines, c09CleanLine(c09GridLine(fr, types), false))
 						} else {
 							lines = append(lines, c09ScriptLine(fr, types, big, false))
 						}
@@ -1168,6 +1187,7 @@ func runC09(c *Ctx) {
 					cs.Lines = hexAll(lines)
 					cs.Text = fmt.Sprintf("interactive script %q args=%q%s <profile %s> env=%q", lines, unhexAll(cs.Args), baseText, describe(p), cs.Env)
 				}
+				cs.Args = c09NoNUL(cs.Args)
 				work <- job{i, cs}
 			}
 		}()
